@@ -450,6 +450,8 @@ def main():
                     cov["rule"] = cfg.get("rule", b.get("bound", ""))
                     cov["exhaustive"] = True
                     cov["samples"] += [{"driver": b["driver"], "case": x} for x in (j.get("samples") or [])[:5]]
+                if j.get("hangs") and not j.get("failures"):
+                    undecided.append("bounded driver %s: %d program(s) did not finish within the watchdog limit, e.g. %s" % (b["driver"], len(j["hangs"]), j["hangs"][0]))
                 if j.get("failures"):
                     violations.append({"obligation": "bounded::%s" % b["driver"], "kind": "bounded", "function": b["driver"], "label": None, "unit": "replay", "clause": b.get("what", ""),
                                        "message": "bounded check on the real code found a failing input", "rendered": json.dumps(j["failures"][:3])[:3000], "site_text": "",
